@@ -53,9 +53,11 @@ fn push_cap(v: &mut Vec<J>, j: J) { if v.len() < 20 { v.push(j); } }
 #[derive(Clone, Debug)]
 struct MItem { name: String, outcome: String, emit: String, cval: String, flags: String }
 
-fn query_macros(defs: &[(String, E)], sg: bool, fit: bool, fb: bool) -> Vec<MItem> {
+fn query_macros(defs: &[(String, E)], sg: bool, fit: bool, fb: bool) -> Vec<MItem> { query_macros_c(defs, sg, fit, fb, false) }
+
+fn query_macros_c(defs: &[(String, E)], sg: bool, fit: bool, fb: bool, cstr: bool) -> Vec<MItem> {
     if defs.is_empty() { return vec![]; }
-    let mut line = format!("c05 m sg={} fit={} fb={}", sg as u8, fit as u8, fb as u8);
+    let mut line = format!("c05 m sg={} fit={} fb={} cstr={}", sg as u8, fit as u8, fb as u8, cstr as u8);
     for (n, e) in defs { line.push(' '); line.push_str(n); line.push('='); line.push_str(&e.to_proto()); }
     let ans = model(&[line]);
     let a = ans.first().cloned().unwrap_or_default();
@@ -328,16 +330,17 @@ fn cmodel_agrees(lean: &str, c: &CV) -> bool {
 
 // ---------------------------------------------------------------- macros
 
-struct OptSet { sg: bool, fit: bool, fb: bool }
+struct OptSet { sg: bool, fit: bool, fb: bool, cstr: bool }
 impl OptSet {
     fn flags(&self) -> Vec<&'static str> {
         let mut v = vec![];
         if self.sg { v.extend(["--default-macro-constant-type", "signed"]); }
         if self.fit { v.push("--fit-macro-constant-types"); }
         if self.fb { v.push("--clang-macro-fallback"); }
+        if self.cstr { v.push("--generate-cstr"); }
         v
     }
-    fn tag(&self) -> String { format!("sg{}fit{}fb{}", self.sg as u8, self.fit as u8, self.fb as u8) }
+    fn tag(&self) -> String { format!("sg{}fit{}{}fb{}", self.sg as u8, self.fit as u8, if self.cstr { "cstr" } else { "" }, self.fb as u8) }
 }
 
 const REGION_IDS: [(char, &str); 5] = [('u', "macro_unsigned_wrap"), ('c', "macro_char_sign"), ('r', "macro_redefinition"), ('f', "macro_float_suffix"), ('w', "macro_wide_string")];
@@ -400,7 +403,7 @@ fn macro_header_case(scratch: &Scratch, case: &str, defs: &[(String, E)], optset
     let mut mods: Vec<(String, String, Vec<(String, String)>)> = vec![];
     let mut emitted_by_set: Vec<(String, BTreeMap<String, String>, BTreeMap<String, String>, HashMap<String, String>)> = vec![]; // (tag, actual, predicted, region flags of the emitted definition)
     for os in optsets {
-        let pred_items = query_macros(defs, os.sg, os.fit, os.fb);
+        let pred_items = query_macros_c(defs, os.sg, os.fit, os.fb, os.cstr);
         let mut predicted: BTreeMap<String, String> = BTreeMap::new();
         let mut flagmap: HashMap<String, String> = HashMap::new();
         for m in &pred_items { if m.emit != "-" && m.emit != "dup" { predicted.insert(m.name.clone(), m.emit.clone()); flagmap.insert(m.name.clone(), m.flags.clone()); } }
@@ -413,7 +416,10 @@ fn macro_header_case(scratch: &Scratch, case: &str, defs: &[(String, E)], optset
         let inv = match inventory(&b) { Ok(i) => i, Err(e) => { rep.machinery.push(format!("{case}: {e}")); continue; } };
         let mut actual: BTreeMap<String, String> = BTreeMap::new();
         for c in &inv.consts {
-            let t = match &c.val { Val::Bytes(bs) => { if c.ty != format!("&[u8;{}]", bs.len()) { format!("badlen {}", c.ty) } else { "str".into() } } _ => c.ty.clone() };
+            let t = match &c.val {
+                Val::Bytes(bs) => { if c.ty != format!("&[u8;{}]", bs.len()) { format!("badlen {}", c.ty) } else { "str".into() } }
+                Val::CStr(_) => { if c.ty == "&::std::ffi::CStr" { "cstr".into() } else { format!("badty {}", c.ty) } }
+                _ => c.ty.clone() };
             actual.insert(c.name.clone(), format!("{}:{}", t, c.val.text()));
         }
         // correspondence
@@ -718,7 +724,7 @@ fn special_section(scratch: &Scratch, thorough: bool, rep: &mut Rep) {
     let text = "enum EBa : bool { kEBf = false, kEBt = true, kEBd = true };\n";
     std::fs::write(scratch.path("sb.hpp"), text).unwrap();
     let mut combos: Vec<(&str, bool, bool)> = vec![];
-    for st in STYLES { for tr in [false, true] { for noprep in [false, true] { if thorough || !noprep { combos.push((st, tr, noprep)); } } } }
+    for st in STYLES { for tr in [false, true] { for noprep in [false, true] { if thorough || (!noprep && matches!(st, "consts" | "newtype" | "rust")) { combos.push((st, tr, noprep)); } } } }
     for (st, tr, noprep) in combos {
         let module = format!("{}_{}{}", st, if tr { "t" } else { "c" }, if noprep { "n" } else { "p" });
         let mut flags: Vec<&str> = vec!["--default-enum-style", st, "--no-layout-tests"];
@@ -861,7 +867,8 @@ fn var_section(scratch: &Scratch, r: &mut Rng, n_headers: usize, per: usize, rep
             let name = format!("kV{h}x{i}");
             match r.below(14) {
                 0 => { // string
-                    let E::Str { text: t, bytes, .. } = str_lit(r, false) else { unreachable!() };
+                    // no interior NUL: a `const char *` constant is a C string (clang's evaluator stops at the first NUL)
+                    let (t, bytes) = loop { let E::Str { text: t, bytes, .. } = str_lit(r, false) else { unreachable!() }; if !bytes.contains(&0) { break (t, bytes); } };
                     let t = t.trim_start_matches("u8").to_string();
                     text.push_str(&format!("const char *const {name} = {t};\n"));
                     strs.push((name, bytes));
@@ -884,8 +891,8 @@ fn var_section(scratch: &Scratch, r: &mut Rng, n_headers: usize, per: usize, rep
                         4 => { let n = gen_int_value(r, true); format!("-{}", int_lit(r, n, true).to_c()) }
                         _ => format!("{}", r.below(200)),
                     };
-                    let init = if ty == CTy::ULLong || ty == CTy::ULong { init.replace("18446744073709551615", "18446744073709551615ULL") } else { init };
-                    let init = if init.starts_with("9223372036854775808") { "9223372036854775807".to_string() } else { init };
+                    // a bare decimal literal above i64::MAX needs a suffix to be valid C
+                    let init = { let digits = init.trim_start_matches('-'); if !digits.is_empty() && digits.chars().all(|c| c.is_ascii_digit()) && digits.parse::<u128>().map_or(false, |v| v > i64::MAX as u128) { format!("{init}ULL") } else { init } };
                     text.push_str(&format!("const {} {name} = {init};\n", ty.c_name()));
                     vars.push((name, ty, init));
                 }
@@ -1013,7 +1020,7 @@ fn oracle_only_search(scratch: &Scratch, r: &mut Rng, rep: &mut Rep) {
     let mut tenv: HashMap<String, CTy> = HashMap::new();
     for (n, c) in &cvals { if let CV::Int { ty, .. } = c { tenv.insert(n.clone(), *ty); } }
     let flags = def_flags(&tenv, &defs);
-    for os in [OptSet { sg: false, fit: false, fb: false }, OptSet { sg: true, fit: false, fb: false }, OptSet { sg: false, fit: true, fb: false }, OptSet { sg: true, fit: true, fb: false }] {
+    for os in [OptSet { sg: false, fit: false, fb: false, cstr: false }, OptSet { sg: true, fit: false, fb: false, cstr: false }, OptSet { sg: false, fit: true, fb: false, cstr: false }, OptSet { sg: true, fit: true, fb: false, cstr: false }] {
         let out = generate_text(scratch, "oo.h", &text, &os.flags(), &[], false);
         rep.inc("bindgen_runs");
         let Some(b) = out.bindings else { continue; };
@@ -1092,9 +1099,10 @@ fn main() {
     let thorough = args.thorough();
 
     let all_sets = || vec![
-        OptSet { sg: false, fit: false, fb: false }, OptSet { sg: true, fit: false, fb: false },
-        OptSet { sg: false, fit: true, fb: false }, OptSet { sg: true, fit: true, fb: false },
-        OptSet { sg: false, fit: false, fb: true }, OptSet { sg: true, fit: true, fb: true },
+        OptSet { sg: false, fit: false, fb: false, cstr: false }, OptSet { sg: true, fit: false, fb: false, cstr: false },
+        OptSet { sg: false, fit: true, fb: false, cstr: false }, OptSet { sg: true, fit: true, fb: false, cstr: false },
+        OptSet { sg: false, fit: false, fb: true, cstr: false }, OptSet { sg: true, fit: true, fb: true, cstr: false },
+        OptSet { sg: false, fit: false, fb: false, cstr: true },
     ];
     if args.extra.iter().any(|a| a == "--oracle-only") {
         let mut r = rng.fork();
@@ -1106,18 +1114,18 @@ fn main() {
     macro_header_case(&scratch, "corpus", &corpus_defs(), &all_sets(), &mut rep);
 
     let t0 = std::time::Instant::now();
-    let (n_headers, per_header) = if thorough { (36, 400) } else { (5, 300) };
+    let (n_headers, per_header) = if thorough { (24, 400) } else { (5, 300) };
     for h in 0..n_headers {
         let mut r = rng.fork();
         let defs = build_header(&mut r, per_header, &mut rep);
         macro_header_case(&scratch, &format!("m{h}"), &defs, &all_sets(), &mut rep);
     }
     eprintln!("c05: macros done at {:.0}s", t0.elapsed().as_secs_f64());
-    let (eh, eper) = if thorough { (10, 80) } else { (4, 50) };
+    let (eh, eper) = if thorough { (8, 70) } else { (4, 50) };
     let mut r = rng.fork();
     enum_section(&scratch, &mut r, eh, eper, thorough, &mut rep);
     eprintln!("c05: enums done at {:.0}s", t0.elapsed().as_secs_f64());
-    let (vh, vper) = if thorough { (10, 400) } else { (2, 150) };
+    let (vh, vper) = if thorough { (8, 300) } else { (2, 150) };
     let mut r = rng.fork();
     var_section(&scratch, &mut r, vh, vper, &mut rep);
 
